@@ -51,6 +51,9 @@ def _jsonable(v):
     return np.asarray(v, dtype=float).tolist()
 
 
+PHASE = {"in_iteration": False}   # per-process flag: set while an iteration's transitions are running
+
+
 class LoggedTransition:
     """Wraps a transition: same interface (explicit attributes only), logs the statistics it returned."""
 
@@ -78,6 +81,8 @@ class LoggedTransition:
 
     def sample(self, state, rng):
         cid = int(state.cid)
+        if self.key == "momentum":
+            PHASE["in_iteration"] = True
         if self.interrupt_at is not None and [cid, int(state.it)] == list(self.interrupt_at):
             raise KeyboardInterrupt
         d = self.delays.get(str(cid))
@@ -117,6 +122,7 @@ class Recorder:
             n = len(rec["pos"])
             rec["metric"] = np.asarray(m @ np.identity(n), dtype=float).tolist()
         self.log.write(rec)
+        PHASE["in_iteration"] = False
         return state, None
 
 
@@ -150,15 +156,18 @@ def trace_values(kind, pos, mom, direction, it):
 
 
 class FaultyDensity:
-    """neg_log_dens / gradient wrapper raising KeyboardInterrupt at its k-th call (per process)."""
+    """neg_log_dens / gradient wrapper raising KeyboardInterrupt at its k-th call made inside an iteration
+    (calls made while adapters initialise or arrays are allocated are outside the property and not counted)."""
 
     def __init__(self, fn, at):
         self.fn, self.at, self.calls = fn, at, 0
 
     def __call__(self, q):
-        self.calls += 1
-        if self.calls == self.at:
-            raise KeyboardInterrupt
+        if PHASE["in_iteration"]:
+            self.calls += 1
+            if self.calls == self.at:
+                PHASE["in_iteration"] = False
+                raise KeyboardInterrupt
         return self.fn(q)
 
 
@@ -331,6 +340,11 @@ def run(cfg, b, memdir=None, timeout=120, n_process="cfg"):
     else:
         kw["adapters"] = {b.int_key: b.adapter_list} if b.adapter_list else None
         kw["trace_funcs"] = b.trace_funcs
+    import logging
+
+    logging.getLogger("mici.samplers").addHandler(logging.NullHandler())
+    if not logging.getLogger("mici.samplers").handlers[1:]:
+        logging.getLogger("mici.samplers").propagate = False   # keep interrupt tracebacks out of the check output
     old = signal.signal(signal.SIGALRM, _alarm)
     signal.alarm(timeout)
     try:
